@@ -35,7 +35,22 @@ pub fn run_case<G: Cv>(c: &Case, seed: u64) -> Out {
     let pc = PedersenGens::<G>::default();
     let prog: Program = size_program(c.kind, c.n1, c.n2);
     let t = (c.n1 + c.n2).max(1).next_power_of_two();
-    let gens: Vec<BulletproofGens<G>> = c.caps.iter().map(|cap| BulletproofGens::new(*cap, 1)).collect();
+    // the threshold concerns `gens_capacity` only: vary how the object came about (party capacity
+    // 1..3; every other one grown from a smaller object by increase_capacity)
+    let gens: Vec<BulletproofGens<G>> = c
+        .caps
+        .iter()
+        .enumerate()
+        .map(|(i, cap)| {
+            if i % 2 == 1 && *cap > 0 {
+                let mut g = BulletproofGens::new(*cap / 2, 1 + i % 3);
+                g.increase_capacity(*cap);
+                g
+            } else {
+                BulletproofGens::new(*cap, 1 + i % 3)
+            }
+        })
+        .collect();
     let mut reference: Option<(Vec<u8>, Vec<G>)> = None;
     let mut reference_obj: Option<R1CSProof<G>> = None;
     for (ci, cap) in c.caps.iter().enumerate() {
@@ -144,7 +159,7 @@ pub fn main(o: &Opts) -> i32 {
         let k = &v["case"];
         cs.retain(|c| c.curve == k["curve"].as_str().unwrap() && c.n1 as u64 == k["n1"].as_u64().unwrap() && c.n2 as u64 == k["n2"].as_u64().unwrap());
     }
-    rep.bounds = json!({"n1": format!("0..={}", nmax), "n2": format!("0..={}", nmax), "capacities": caps, "kinds": kinds.iter().map(|k| format!("{:?}", k)).collect::<Vec<_>>()});
+    rep.bounds = json!({"n1": format!("0..={}", nmax), "n2": format!("0..={}", nmax), "capacities": caps, "generator_objects": "party capacity 1..3 by position; every other object grown from half its capacity by increase_capacity", "kinds": kinds.iter().map(|k| format!("{:?}", k)).collect::<Vec<_>>()});
     rep.curves = CURVES.iter().map(|s| s.to_string()).collect();
     rep.rule = "full grid (phase-1 gates x phase-2 gates x prover capacity x verifier capacity): prove with every capacity, verify and batch_verify the proof of a sufficient prover with every capacity; threshold T = next_pow2(max(n1+n2,1)); non-trivial = (grid point, capacity, role) evaluations".into();
     let start = rep.start;
